@@ -63,3 +63,35 @@ func H_C07_patches(budget int) {
 }
 
 func D_C07_patches() string { return zzC07Assemble() }
+
+// H_C07_paths: the persist step writes every response item concurrently, so two items with the
+// same path would make the file's content depend on which write lands last. Colliding
+// submissions (same name, pairwise different content; one or several Feed calls; a name of the
+// form the renamer produces) must therefore leave pairwise distinct paths.
+func H_C07_paths(n int) {
+	s := func(x string) *string { return &x }
+	names := []string{"common.go", "common.go", "common.go", "common_1.go", "other.go"}
+	fm := NewFileManager(backend.DummyLogFunc())
+	var batch []*plugin.Generated
+	for i := 0; i < n; i++ {
+		nm := names[zzrt.Choose("name", len(names))]
+		batch = append(batch, &plugin.Generated{Name: s(nm), Content: "// file " + string(rune('a'+i)) + "\n"})
+		if zzrt.Bool("flush") {
+			if err := fm.Feed("x", batch); err != nil {
+				panic(err)
+			}
+			batch = nil
+		}
+	}
+	if err := fm.Feed("x", batch); err != nil {
+		panic(err)
+	}
+	res := fm.BuildResponse()
+	zzrt.Assert(len(res.Contents) == n, "every submitted file with content of its own is written")
+	for i, a := range res.Contents {
+		for j := i + 1; j < len(res.Contents); j++ {
+			zzrt.Assert(a.GetName() != res.Contents[j].GetName(), "two concurrently written items share the path "+a.GetName())
+		}
+	}
+	zzrt.Cover("end")
+}
